@@ -122,6 +122,13 @@ def transforms(rng, f, maxn=12):
                             hyp = gen.clone(f)
                             hs = sites(hyp)[si]
                             hs["node"]["q"] = gen.clone(prefix) + gen.clone(rest[1:])
+                            if len(rest) > 1 and rest[1][0] == "filter":
+                                # with the `[*]` swallowed the filter directly follows the variable: the second listed finding (`%v[ filter ]`)
+                                # takes over. Chain of two listed findings: q[*][f] -> q[f] (quirk) -> %v[f] (finding next=filter) == the variant
+                                g2 = gen.clone(g)
+                                s2 = sites(g2)[si]
+                                s2["node"]["q"] = [["var", "tvq"]] + gen.clone(rest[1:])
+                                hyp["_hyp2"] = g2
                         yield "prefix", sc[0], "prefix:next=%s" % nxt, g, hyp
         # ---- keyvar: a key of the query taken from a variable (documented interpolation `a.%k`) == the key written in place
         q = node0["q"]
@@ -282,9 +289,14 @@ def shard(ctx):
                 continue
             sig = "%s:%s" % (label, detail.split("(")[0])
             if hyp is not None:
+                hyp2 = hyp.get("_hyp2")
                 hyp = {k: v for k, v in hyp.items() if not k.startswith("_")}
                 hst, _ = status_map(ctx.w, gen.pfile(hyp), docs)
                 hsame = (hst == st) if isinstance(st, dict) else (not isinstance(hst, dict) and hst != "crash")
+                if not hsame and hyp2 is not None:
+                    hst2, _ = status_map(ctx.w, gen.pfile({k: v for k, v in hyp2.items() if not k.startswith("_")}), docs)
+                    hsame = (hst2 == st) if isinstance(st, dict) else (not isinstance(hst2, dict) and hst2 != "crash")
+                    ctx.res.counts["allidx_then_filter_chains_examined"] += 1
                 sig += ":explained-by-variable-[*]-quirk" if hsame else ":other"
             if not isinstance(st, dict):
                 what = "abstraction step turned a verdict into an error (%s): %s" % (detail, st)
